@@ -44,7 +44,9 @@
  * comparators: 0 = sort() i.e. lt on the whole value, 1 = key(a) < key(b), 2 = key(a) > key(b), 3 = key(a) <= key(b),
  * key(v) = floor(v / 256): the low 8 bits are a tag that makes the instability of the quicksort visible.
  * Tuple rule shared with the driver: an op that would store an id already present in that Tuple prints `dup-refused`
- * and is not executed (F13 territory).                                                                              */
+ * and is not executed (F13 territory); `set` may store the pointer the cell already holds.
+ * The driver dumps the STORE-LEVEL model (lean/Cello/SeqStore.lean): cells in use + capacity for Arrays, the node chain read along
+ * next with the same link checks as read_rep() below for Lists (BADLINKS otherwise), the cell block up to Terminal for Tuples.   */
 #include "common.h"
 #include <signal.h>
 #include <inttypes.h>
